@@ -119,6 +119,7 @@ pub fn init_regexp_prototype(interp: &mut Interpreter) {
 
     interp.register_method(&proto, "test", regexp_test, 1);
     interp.register_method(&proto, "exec", regexp_exec, 1);
+    interp.register_method(&proto, "toString", regexp_to_string, 0);
 }
 
 /// Create RegExp constructor
@@ -264,6 +265,24 @@ pub fn regexp_test(
         value,
         JsValue::Null
     ))))
+}
+
+/// RegExp.prototype.toString: /source/flags
+pub fn regexp_to_string(
+    _interp: &mut Interpreter,
+    this: JsValue,
+    _args: &[JsValue],
+) -> Result<Guarded, JsError> {
+    let (pattern, flags) = get_regexp_data(&this)?;
+    let source = if pattern.is_empty() {
+        "(?:)".to_string()
+    } else {
+        pattern
+    };
+    Ok(Guarded::unguarded(JsValue::String(JsString::from(format!(
+        "/{}/{}",
+        source, flags
+    )))))
 }
 
 pub fn regexp_exec(
